@@ -73,3 +73,63 @@ def unicode_text(rng, maxlen=30):
                 c = 0x4e00
             cs.append(chr(c))
     return ''.join(cs)
+
+
+# ---------------------------------------------------------------- control-file texts
+
+FIELD_NAMES = ['Format', 'Files', 'Copyright', 'License', 'Licence', 'Comment', 'Source', 'Upstream-Name',
+               'Upstream-Contact', 'Disclaimer', 'Files-Excluded', 'Package', 'Version', 'Depends', 'Description',
+               'X-Foo', 'Foo', 'foo-1', 'License-1', 'Files-2', 'Unknown', 'Unknown-1', 'Extra-Data',
+               'Line-Numbers-By-Field', 'Format-Specification', 'Content-Type', 'A0-', 'LICENSE', 'files', 'İx', 'Kelvin']
+NEAR_DECL = ['1abc: x', 'X_Foo: y', ' Some: bar', 'foo bar: baz', ':x', 'é: 1', 'a b', 'From foo', '-a: 1', 'a.b: c']
+
+
+def decl_line(rng, name=None):
+    name = name or rng.choice(FIELD_NAMES)
+    k = rng.random()
+    if k < 0.18:
+        return name + ':' + rng.choice(['', ' ', '  ', '\t'])
+    sep = rng.choice([': ', ':', ':  ', ' : ', ':\t'])
+    return name + sep + words_line(rng) + rng.choice(['', '', ' ', ' \t'])
+
+
+def cont_line(rng):
+    k = rng.random()
+    if k < .2:
+        return ' .'
+    if k < .3:
+        return rng.choice([' .x', '  .', '\t.', ' . '])
+    if k < .45:
+        return rng.choice(['  ', '\t', ' \t']) + words_line(rng)
+    return ' ' + words_line(rng) + rng.choice(['', '', ' '])
+
+
+def control_line(rng):
+    k = rng.random()
+    if k < .34:
+        return decl_line(rng)
+    if k < .62:
+        return cont_line(rng)
+    if k < .78:
+        return ''
+    if k < .84:
+        return rng.choice([' ', '  ', '\t', ' \t '])
+    if k < .92:
+        return words_line(rng)            # junk
+    if k < .96:
+        return rng.choice(NEAR_DECL)
+    if k < .98:
+        return rng.choice(ODD_SPACES) + words_line(rng)
+    return words_line(rng) + rng.choice(ODD_BREAKS) + words_line(rng)
+
+
+def control_text(rng, maxlines=14, mixed_terms=0.15):
+    n = rng.randint(0, maxlines)
+    mixed = rng.random() < mixed_terms
+    term = rng.choice(['\n', '\n', '\n', '\r\n', '\r'])
+    out = []
+    for i in range(n):
+        out.append(control_line(rng))
+        if i < n - 1 or rng.random() < .7:
+            out.append(rng.choice(['\n', '\r\n', '\r']) if mixed else term)
+    return ''.join(out)
